@@ -506,10 +506,15 @@ func genC13s(t *rapid.T) c13sCase {
 	}
 }
 
+type c13sErr struct{ n, k int }
+
+func (e *c13sErr) Error() string { return fmt.Sprintf("scripted failure %d of key %d", e.n, e.k) }
+
 func execC13s(c c13sCase, x *verifkit.Ctx) *verifkit.Failure {
 	g := NewGroup[int, int]()
 	var bad atomic.Pointer[verifkit.Failure]
-	var shared atomic.Int64
+	var shared, failed atomic.Int64
+	invocations := make([]atomic.Int64, c.Keys) // per key: number of function executions started
 	var wg sync.WaitGroup
 	for w := 0; w < c.Goroutines; w++ {
 		w := w
@@ -517,23 +522,46 @@ func execC13s(c c13sCase, x *verifkit.Ctx) *verifkit.Failure {
 		go func() {
 			defer wg.Done()
 			rnd := uint32(w*2654435761 + 12345)
+			last := make([]int, c.Keys) // per key: number of the execution whose result this goroutine received last
 			for i := 0; i < c.Calls && bad.Load() == nil; i++ {
 				rnd = rnd*1664525 + 1013904223
 				k := int(rnd>>10) % c.Keys
 				ran := false
 				v, err, _ := g.Do(k, func() (int, error) {
 					ran = true
+					n := int(invocations[k].Add(1))
 					for j := 0; j < c.Spin; j++ {
 						runtime.Gosched()
 					}
-					return k*1000003 + 17, nil
+					if n%3 == 0 {
+						return 0, &c13sErr{n, k}
+					}
+					return n<<8 | k, nil
 				})
 				if !ran {
 					shared.Add(1)
 				}
-				if err != nil || v != k*1000003+17 {
-					bad.CompareAndSwap(nil, verifkit.Failf("flight/foreign-result", "Do(key %d) returned (%d, %v): the value made for key %d (this caller ran the function itself: %v; %d goroutines, %d keys)", k, v, err, (v-17)/1000003, ran, c.Goroutines, c.Keys))
+				gotK, n := v&0xff, v>>8
+				if err != nil {
+					var se *c13sErr
+					if !errors.As(err, &se) {
+						bad.CompareAndSwap(nil, verifkit.Failf("flight/unknown-error", "Do(key %d) returned error %v", k, err))
+						continue
+					}
+					gotK, n = se.k, se.n
+					failed.Add(1)
 				}
+				if gotK != k {
+					bad.CompareAndSwap(nil, verifkit.Failf("flight/foreign-result", "Do(key %d) returned (%d, %v): the result made for key %d (this caller ran the function itself: %v; %d goroutines, %d keys)", k, v, err, gotK, ran, c.Goroutines, c.Keys))
+					continue
+				}
+				if n <= last[k] {
+					// the Group caches nothing: once a caller has received the result of execution n, its next
+					// call either joins a later execution or runs one itself
+					bad.CompareAndSwap(nil, verifkit.Failf("flight/result-served-again", "goroutine %d: Do(key %d) returned the result of execution %d (error: %v) after an earlier call of the same goroutine had already received execution %d: a finished flight was joined again, the function did not run (ran itself: %v)", w, k, n, err != nil, last[k], ran))
+					continue
+				}
+				last[k] = n
 			}
 		}()
 	}
@@ -541,6 +569,7 @@ func execC13s(c c13sCase, x *verifkit.Ctx) *verifkit.Failure {
 	if f := bad.Load(); f != nil {
 		return f
 	}
+	x.ClassIf(failed.Load() > 0, "failing-executions")
 	if shared.Load() > 0 {
 		x.Class("flights-shared")
 		x.NonTrivial()
@@ -551,7 +580,7 @@ func execC13s(c c13sCase, x *verifkit.Ctx) *verifkit.Failure {
 func TestVerifC13GroupStress(t *testing.T) {
 	verifkit.Run(t, verifkit.Spec[c13sCase]{
 		ID: "C13", Gen: genC13s, Exec: execC13s, Nondet: true,
-		Rule:        "C13(c): rapid draws 8..128 goroutines hammering Group.Do over 2..12 keys (2 000..30 000 calls each, the function yields 0..3 times); every result must be the one made for the caller's key; non-trivial = some callers shared a flight",
+		Rule:        "C13(c): rapid draws 8..128 goroutines hammering Group.Do over 2..12 keys (2 000..30 000 calls each, the function yields 0..3 times); every third execution fails; every result (value or error) must be the one made for the caller's key, and the numbers of the executions one goroutine receives for a key must strictly increase (nothing is cached, a finished flight is never joined again); non-trivial = some callers shared a flight",
 		Assumptions: []string{"real goroutines; which callers share a flight and when pooled call records are recycled is up to the Go scheduler"},
 	})
 }
